@@ -137,6 +137,10 @@ def schema_env_for_graph(deps, kinds):
 # ---------------------------------------------------------------------------
 # running prophyc
 # ---------------------------------------------------------------------------
+class Watchdog(BaseException):
+    """raised by the SIGALRM handler of a worker; never swallowed"""
+
+
 def run_main(argv):
     """prophyc.main in-process.  -> ("ok", nodes) | ("diagnostic", text) |
     ("internal", "Type: text")  (designed channel = ProphycError / SystemExit
@@ -149,9 +153,16 @@ def run_main(argv):
         return "ok", nodes, err.getvalue()
     except prophyc.ProphycError as e:
         return "diagnostic", str(e), err.getvalue()
+    except Watchdog:
+        raise
     except SystemExit as e:
         return "diagnostic", "SystemExit: %s" % (e.code,), err.getvalue()
     except BaseException as e:  # noqa
+        # prophyc's own exception classes and the patcher's plain Exception are
+        # its designed ways of refusing an input (python -m prophyc prints them)
+        import prophyc.model as pm
+        if isinstance(e, pm.ModelError) or type(e) is Exception:
+            return "diagnostic", "%s: %s" % (type(e).__name__, str(e)[:500]), err.getvalue()
         return "internal", "%s: %s" % (type(e).__name__, str(e)[:500]), err.getvalue()
 
 
